@@ -162,7 +162,20 @@ func Corpus() []*Schema {
 	// special names and names differing in case
 	// a field called "Size" collides with the generated Size() method unless the runtime renames it:
 	// only Gogo does (specialname=Size); with the google runtimes such a schema cannot be supported
-	cs = append(cs, &Schema{ID: "namesgogo", Syntax: "proto3", Only: []string{"gogo"}, Messages: []M{{Name: "Sized", Fields: []F{{"Size", 1, "int32", "opt"}, {"label", 2, "string", "opt"}}}}})
+	cs = append(cs, &Schema{ID: "namesgogo", Syntax: "proto3", Only: []string{"gogo"}, Special: []string{"Size"}, Messages: []M{{Name: "Sized", Fields: []F{{"Size", 1, "int32", "opt"}, {"label", 2, "string", "opt"}}}}})
+	// … and so does every other method name of Gogo's own plug-ins (GogoSpecialNames): two of them in one message, and
+	// all six, as singular / repeated / map / message-typed fields, spread over two messages (the names
+	// are given as several `specialname=` tokens: Variant.Rep)
+	cs = append(cs, &Schema{ID: "namesgogo2", Syntax: "proto3", Only: []string{"gogo"}, Special: []string{"ProtoSize", "Size"},
+		Messages: []M{{Name: "Sized", Fields: []F{{"Size", 1, "int32", "opt"}, {"proto_size", 2, "sint64", "packed"}, {"label", 3, "string", "opt"}}}}})
+	cs = append(cs, &Schema{ID: "namesgogo6", Syntax: "proto3", Only: []string{"gogo"}, Special: GogoSpecialNames,
+		Messages: []M{{Name: "Methods", Fields: []F{{"size", 1, "int32", "opt"}, {"equal", 2, "bool", "opt"}, {"go_string", 3, "string", "rep"}, {"marshal_to", 4, "bytes", "opt"},
+			{"verbose_equal", 5, "int32", "map:string"}, {"proto_size", 6, "msg:Part", "opt"}, {"label", 7, "string", "opt"}}},
+			{Name: "Part", Fields: []F{{"ProtoSize", 1, "uint64", "opt"}, {"Equal", 2, "string", "opt"}, {"GoString", 3, "msg:Part", "rep"}, {"n", 4, "int32", "oneof:pick"}, {"s", 5, "string", "oneof:pick"}}},
+			// special names as ONEOF MEMBERS: protoc-gen-gogo derives the wrapper type from the translated field name
+			// (<Msg>_<Name>_); finding B34 (the generator used <Msg>_<Name>: did not compile), fixed
+			{Name: "Choice", Fields: []F{{"id", 1, "int32", "opt"}, {"Size", 2, "uint64", "oneof:pick"}, {"Equal", 3, "string", "oneof:pick"},
+				{"ProtoSize", 4, "msg:Part", "oneof:pick"}, {"plain", 5, "bytes", "oneof:pick"}}}}})
 	names := &Schema{ID: "names", Syntax: "proto3"}
 	names.Messages = []M{{Name: "Odd", Fields: []F{{"reset_", 3, "bool", "opt"}, {"string_", 4, "string", "opt"}, {"size_of", 5, "bytes", "opt"}, {"unmarshal_", 6, "int32", "rep"}}},
 		{Name: "lower", Fields: []F{{"a", 1, "int32", "opt"}}}}
